@@ -580,9 +580,18 @@ def _rtime(rng):
     return [rng.choice([0, 3, 12, 23]), rng.choice([0, 4, 59]), rng.choice([0, 5, 59]), rng.choice([0, 0, 1, 6, 500000, 999999, 100])]
 
 
+# further witnesses of known findings, run on every check (the findings file carries one witness each)
+EXTRA_WITNESSES = [
+    # C05-numeric-paramstyle-pyformat-in-literal reached through the IN list of a bind_expression type
+    # (numeric_dollar, literal_execute): KeyError 'x'
+    {"in": [0, [1, 1, 5], 1, 9, 0, [[1, [39, 39, 44, 32, 39]], [1, [97, 44, 32, 98]], [1, [37, 40, 120, 41, 115]]]],
+     "kind": "witness2"},
+]
+
+
 def gen_cases(rng, tier):
     big = tier == "thorough"
-    cases = []
+    cases = [dict(w) for w in EXTRA_WITNESSES]
     # --- exhaustive small strings
     smalls = [""] + [a for a in SMALL] + [a + b for a in SMALL for b in SMALL]
     k = 0
@@ -1337,15 +1346,17 @@ def match_finding(c, what):
     if pos == 10 and all((v[0] == 2 and v[1] < 0) or (v[0] == 4 and unS(v[1][1]).startswith("-")) for v in vals):
         if "comment" in what or "fails on SQLite" in what or "not one numeric literal" in what:
             return "C05-negated-negative-literal-comment"
-    if pos == 9 and mode == 1 and any(v[0] in (1, 8) and ", " in unS(v[1]) for v in vals):
-        return "C05-literal-execute-bind-expression-split"
     ps = cfg[2] if cfg[2] != 6 else DEFAULT_PS[cfg[0]]
     strs = [unS(v[1]) for v in vals if v[0] in (1, 8)]
+    # the %(name)s passes come first: they fail in every family whose values are rendered as literals
+    # (by their error signature: KeyError under the numeric paramstyles, a changed value under qmark/format)
     if strs and PYFORMAT.search("', '".join(strs)):
-        if ps in (4, 5):
+        if ps in (4, 5) and ("KeyError" in what or pos == 11):
             return "C05-numeric-paramstyle-pyformat-in-literal"
-        if ps in (0, 1) and mode == 0:
+        if ps in (0, 1) and mode == 0 and "KeyError" not in what:
             return "C05-positional-pass-rewrites-literal"
+    if pos == 9 and mode == 1 and "KeyError" not in what and any(v[0] in (1, 8) and ", " in unS(v[1]) for v in vals):
+        return "C05-literal-execute-bind-expression-split"
     if ty in (5, 6) and any(v[0] == 4 and not py_sql_numeric(unS(v[1][1])) for v in vals):
         bad = [v for v in vals if v[0] == 4 and not py_sql_numeric(unS(v[1][1]))]
         if all(v[1][0] == 1 and unS(v[1][1]) in ("inf", "-inf", "nan") for v in bad):
